@@ -31,8 +31,8 @@ func (repo *TxRepository) MarkUnsafe(ctx context.Context, txid bitcoin.Hash32) (
 		return true, nil
 	}
 
-	repo.unconfirmed[txid] = newUnconfirmedTx(false, true, false)
-	return true, nil
+	// Not a tracked (relevant) tx. Don't add it, only relevant txs belong in the unconfirmed set.
+	return false, nil
 }
 
 // Mark an unconfirmed tx as being verified by a trusted node.
